@@ -15,7 +15,7 @@ def public_entry_point(ctx, q, data, metric, want, fail):
     for kind in ("list", "generator"):
         td = {sig: (list(samples) if kind == "list" else (x for x in list(samples))) for sig, samples in data.items()}
         try:
-            r = q.validate(td, error_metrics=metric)
+            r = q.validate(td, error_metrics=metric, use_reference_kernel=True) if fv.REF_KERNEL[0] else q.validate(td, error_metrics=metric)
         except Exception as e:  # noqa: BLE001
             return fail(f"Quantizer.validate raised {type(e).__name__} on {kind} test data where compare_model succeeds", "validate-public-raised")
         ctx.tag("public_validate_" + kind)
@@ -47,6 +47,16 @@ def run(ctx):
     n = 120 if ctx.tier == "quick" else 900
 
     def per_case(case, res):
+        # the documented use_reference_kernel=True path is a path like any other (the harness's own interpreters follow it)
+        fv.REF_KERNEL[0] = rng.random() < 0.3
+        if fv.REF_KERNEL[0]:
+            ctx.tag("use_reference_kernel")
+        try:
+            return per_case_(case, res)
+        finally:
+            fv.REF_KERNEL[0] = False
+
+    def per_case_(case, res):
         if "const_is_output" in case.info["tags"]:
             # constants exported as signature outputs: group filing is exercised by comparing the float model with itself
             metric = "mse" if rng.random() < 0.5 else "median_diff_ratio"
